@@ -14,6 +14,19 @@ CHECKS = {
  "C19": ("systematic source transforms of the whole repo corpus + proptest variants; parse + token-sequence + comment-sequence oracle",
          "Exploration under the default configuration: formatted output must parse, have the same token sequence modulo five documented cosmetic rewrites, and the same comment sequence, for every repo .sw file x 8 transformations plus random variants.",
          "Token comparison normalises trailing commas, use-tree braces/sorting, parentheses around a single separator-delimited element and string-literal escapes; ~80 listed inputs lose comments or produce unparsable text on the unchanged tree (known findings).", "4/C19", "vp-text"),
+
+ "C20": ("proptest graph generator; round-trip oracle Lock::from_graph -> TOML -> to_graph",
+         "Exploration: 600k (quick) / 12M (thorough) generated package graphs (member/path/git/ipfs/registry sources, renamed and contract dependencies with salts, same-named packages) are written to Forc.lock text and read back; node and edge multisets, structural source equality and lock-text stability are compared.",
+         "Tier A strings only contain characters the manifest validation admits; adversarial tier B (refs/dependency names with `( ) # ?`) is run for crash-freedom and counted, not judged. Git Rev references equal the pinned hash.", "4/C20", "vp"),
+ "C21": ("proptest fragment soups + text/TOML-structure mutation of the repo's 1121 Forc.lock files; no-panic oracle",
+         "Exploration: 1.5M (quick) / 30M (thorough) source strings, dependency lines and whole lock files are loaded through source::Pinned::from_str, toml + Lock::to_graph (+ compilation_order); any panic is a violation.",
+         "Inputs are valid UTF-8; only panics are judged (an Err is the documented outcome for malformed input).", "4/C21", "vp"),
+ "C22": ("proptest DAG/cyclic graph generator; order-validity oracle with independent cycle detection",
+         "Exploration: 2M (quick) / 40M (thorough) package graphs (multi-edges, holes, disconnected parts, back edges, self loops): compilation_order must be a permutation with dependencies first for acyclic graphs and an error for cyclic ones (cyclicity decided by the harness's own DFS).",
+         "Graph sizes up to 39 nodes.", "4/C22", "vp"),
+ "C23": ("proptest edit histories against a UTF-16 reference client; model-equality oracle after every change",
+         "Exploration: 150k (quick) / 6M (thorough) edit histories (1-29 full and incremental changes, multi-byte and astral characters, mixed line ends, invalid ranges) applied through Documents::update_text_document; server text must equal the reference client's after every step, invalid ranges must be rejected unchanged, nothing may panic.",
+         "Lone CR line ends are not generated; sloppy columns (past end of line, inside a surrogate pair) are crash-freedom only.", "4/C23", "vp-lsp"),
 }
 NA = {}
 checks = []
@@ -44,8 +57,8 @@ m = {
  },
  "engines": [
    {"name": "vp-text", "path": "harness/vp-text", "serves_properties": ["C16", "C18", "C19"], "kind_free_text": "proptest-driven binary over sway-parse/swayfmt"},
-   {"name": "vp", "path": "harness/vp", "serves_properties": [], "kind_free_text": "proptest-driven binary over sway-core/sway-ir/forc-pkg/forc-test/forc-util + FuelVM"},
-   {"name": "vp-lsp", "path": "harness/vp-lsp", "serves_properties": [], "kind_free_text": "proptest-driven binary over sway-lsp"},
+   {"name": "vp", "path": "harness/vp", "serves_properties": [k for k,v in CHECKS.items() if v[4]=="vp"], "kind_free_text": "proptest-driven binary over sway-core/sway-ir/forc-pkg/forc-test/forc-util + FuelVM"},
+   {"name": "vp-lsp", "path": "harness/vp-lsp", "serves_properties": [k for k,v in CHECKS.items() if v[4]=="vp-lsp"], "kind_free_text": "proptest-driven binary over sway-lsp"},
  ],
  "checks": checks,
  "not_applicable": na,
